@@ -14,6 +14,8 @@ import sys
 REPO = os.environ.get("VERIF_REPO", "/repo")
 if REPO not in sys.path:
     sys.path.insert(0, REPO)
+sys.path.insert(0, os.path.dirname(os.path.abspath(__file__)))
+import typeaccess as TA  # noqa: E402
 
 
 class GenError(Exception):
@@ -34,19 +36,20 @@ def classify(ty):
     if isinstance(ty, type) and issubclass(ty, SimpleDescriptor):
         return ("simpledesc",)
     if isinstance(ty, type) and issubclass(ty, tb.ShortBytes):
-        hdr = classify(ty._header)
-        return ("lvbytes", hdr[1], 256 ** hdr[1])
+        w = TA.header_width(ty, b"")
+        return ("lvbytes", w, 256 ** w)
     if isinstance(ty, type) and issubclass(ty, zb.LVBytes):
         return ("lvbytes", ty._prefix_length, 256 ** ty._prefix_length - 1)
     if isinstance(ty, type) and issubclass(ty, tb.LVList):
-        hdr = classify(ty._header)
-        if hdr[0] != "int":
+        h = getattr(ty, "_header", None)
+        if h is not None and classify(h)[0] != "int":
             raise GenError("LVList with a non-integer header %r" % ty)
-        return ("lvlist", hdr[1], classify(ty._item_type))
+        w = TA.header_width(ty, [])
+        return ("lvlist", w, classify(TA.item_type(ty, "lv", w)))
     if isinstance(ty, type) and issubclass(ty, tb.FixedList):
-        return ("fixlist", ty._length, classify(ty._item_type))
+        return ("fixlist", TA.fixed_length(ty), classify(TA.item_type(ty, "fixed")))
     if isinstance(ty, type) and issubclass(ty, tb.CompleteList):
-        return ("greedy", classify(ty._item_type))
+        return ("greedy", classify(TA.item_type(ty, "greedy")))
     if isinstance(ty, type) and issubclass(ty, zb.LVList):
         hdr = classify(ty._length_type)
         return ("lvlist", hdr[1], classify(ty._item_type))
